@@ -34,6 +34,8 @@ import (
 	ec "github.com/sunriselayer/sunrise/x/da/erasurecoding"
 	datypes "github.com/sunriselayer/sunrise/x/da/types"
 	"github.com/sunriselayer/sunrise/x/da/zkp"
+
+	"svh/sim"
 )
 
 func init() { register("rs", suiteRS) }
@@ -102,7 +104,8 @@ func suiteRS(e *Env) {
 	e.Obs("ok")
 	rsEncode(e)
 	rsIndices(e)
-	rsZk(e)
+	items := rsZk(e)
+	rsMsgServer(e, items)
 }
 
 // ---------------------------------------------------------------------------------------------- erasure coding
@@ -528,8 +531,12 @@ func rsIndices(e *Env) {
 			e.Oracle("assign_deterministic", cls2 == cls && idxStr(out) == idxStr(out2), "n=%d t=%d seed=%d/%d", n, t, s1, s2)
 			if viaAddr {
 				// equal address ⇒ equal indices through the other entry point as well
-				out3 := datypes.GetRandomIndicesFromSeed(n, t, datypes.ValidatorSeed(append(sdk.ValAddress{}, addr...)), 1024)
-				e.Oracle("assign_function_of_address", idxStr(out3) == idxStr(out), "addrlen=%d n=%d t=%d", len(addr), n, t)
+				var out3 []int64
+				cls3 := guard3(func() error {
+					out3 = datypes.GetRandomIndicesFromSeed(n, t, datypes.ValidatorSeed(append(sdk.ValAddress{}, addr...)), 1024)
+					return nil
+				})
+				e.Oracle("assign_function_of_address", cls3 == cls && idxStr(out3) == idxStr(out), "addrlen=%d n=%d t=%d", len(addr), n, t)
 			}
 		}
 	}
@@ -611,19 +618,20 @@ func zkSetup(e *Env) *zkEnv {
 	return z
 }
 
-func rsZk(e *Env) {
+type zkItem struct{ h, m, proof []byte }
+
+func rsZk(e *Env) []zkItem {
 	r := e.R
 	z := zkSetup(e)
 	if z == nil {
-		return
+		return nil
 	}
 	rmod := fr.Modulus()
 	cnt := e.N
 	if e.Tier == "thorough" {
 		cnt = 4 * e.N
 	}
-	type item struct{ h, m, proof []byte }
-	items := []item{}
+	items := []zkItem{}
 	for k := 0; k < cnt; k++ {
 		// shard hash = MiMC(shard) as the off-chain tooling computes it (a canonical field element), or small values
 		var h []byte
@@ -651,7 +659,7 @@ func rsZk(e *Env) {
 		if cls != "ok" {
 			continue
 		}
-		items = append(items, item{h, m, proof})
+		items = append(items, zkItem{h, m, proof})
 		// dishonest witnesses: a different public value cannot be proved from h
 		other := mimcOf(m)
 		flip := append([]byte{}, m...)
@@ -729,6 +737,150 @@ func rsZk(e *Env) {
 			e.Oracle("zk_proof_decode_bounded", out == "err", "outcome=%s decoding a %d-byte proof whose commitment count field says 2^32-1 (Proof.ReadFrom as in Msg/SubmitValidityProof, child process with 6 GiB address space)", out, len(crafted))
 		}
 	}
+	return items
+}
+
+// ---------------------------------------------------------------------------------------------- the real handler
+
+// rsMsgServer drives Msg/SubmitValidityProof of the real application: a published item in CHALLENGING status whose
+// shard_double_hashes are the items' double hashes, proofs submitted by a bonded genesis validator.
+func rsMsgServer(e *Env, items []zkItem) {
+	if len(items) < 3 {
+		return
+	}
+	// distinct double hashes only
+	seen := map[string]bool{}
+	its := []zkItem{}
+	for _, it := range items {
+		if !seen[string(it.m)] {
+			seen[string(it.m)] = true
+			its = append(its, it)
+		}
+	}
+	if len(its) > 12 {
+		its = its[:12]
+	}
+	if len(its) < 3 {
+		return
+	}
+	c, err := sim.New(sim.DefaultConfig())
+	if err != nil {
+		e.Obs("setup-error %v", err)
+		return
+	}
+	r := e.R
+	rmod := fr.Modulus()
+	val := c.Vals[0].Oper
+	uriN := 0
+	submit := func(ys [][]byte, idx []int64, pf []int, tag string) {
+		uriN++
+		uri := fmt.Sprintf("ipfs://rs/%d", uriN)
+		err, p := c.Call(func(ctx sdk.Context) error {
+			return c.App.DaKeeper.SetPublishedData(ctx, datypes.PublishedData{
+				MetadataUri: uri, ParityShardCount: 1, ShardDoubleHashes: ys, Timestamp: ctx.BlockTime(),
+				Status: datypes.Status_STATUS_CHALLENGING, Publisher: c.Accs[0].Addr.String(), PublishedTimestamp: ctx.BlockTime(),
+			})
+		})
+		if err != nil || p != nil {
+			e.Obs("setup-error SetPublishedData %v %v", err, p)
+			return
+		}
+		proofs := make([][]byte, len(pf))
+		ms := make([]string, len(pf))
+		for k, i := range pf {
+			proofs[k] = its[i].proof
+			ms[k] = new(big.Int).SetBytes(its[i].m).String()
+		}
+		_, err, p = c.Exec(&datypes.MsgSubmitValidityProof{Sender: sdk.AccAddress(val).String(), ValidatorAddress: val.String(),
+			MetadataUri: uri, Indices: idx, Proofs: proofs})
+		cls := class(err, p)
+		csv := func(xs []string) string {
+			if len(xs) == 0 {
+				return "-"
+			}
+			return strings.Join(xs, ",")
+		}
+		is := make([]string, len(idx))
+		for k, j := range idx {
+			is[k] = fmt.Sprint(j)
+		}
+		yh := make([]string, len(ys))
+		for k, y := range ys {
+			yh[k] = hex.EncodeToString(y)
+			if len(y) == 0 {
+				yh[k] = "e"
+			}
+		}
+		e.In("msgvp %s %s %s", csv(is), csv(ms), csv(yh))
+		e.Obs("%s", cls)
+		e.Stat("msgvp." + tag + "." + cls)
+		e.Oracle("no_panic", cls != "panic", "Msg/SubmitValidityProof %s", tag)
+		// the property on the handler: accepted iff every proof k was made for the shard whose double hash is stored at idx[k]
+		if len(idx) == len(pf) {
+			match, alias, inRange := true, false, true
+			for k, j := range idx {
+				if j < 0 || int(j) >= len(ys) {
+					inRange = false
+					break
+				}
+				if !bytes.Equal(ys[j], its[pf[k]].m) {
+					match = false
+					if new(big.Int).Mod(new(big.Int).SetBytes(ys[j]), rmod).Cmp(new(big.Int).SetBytes(its[pf[k]].m)) == 0 {
+						alias = true
+					}
+				}
+			}
+			if inRange && match {
+				e.Oracle("zk_verifies_own", cls == "ok", "Msg/SubmitValidityProof %s: matching proofs rejected", tag)
+				_, found, _ := c.App.DaKeeper.GetProof(c.Ctx(), uri, val)
+				e.Oracle("proof_stored", found == (cls == "ok"), "Msg/SubmitValidityProof %s", tag)
+			} else if inRange {
+				cl := "handler_mismatch"
+				if alias {
+					cl = "alias_handler"
+				}
+				e.Oracle("zk_binds", cls != "ok", "class=%s Msg/SubmitValidityProof accepted a proof against another double hash (%s)", cl, tag)
+			} else {
+				e.Oracle("index_out_of_range_is_error", cls == "err", "Msg/SubmitValidityProof %s -> %s", tag, cls)
+			}
+		}
+	}
+	ys := make([][]byte, len(its))
+	all := make([]int64, len(its))
+	allP := make([]int, len(its))
+	for i, it := range its {
+		ys[i], all[i], allP[i] = it.m, int64(i), i
+	}
+	n := len(its)
+	submit(ys, all, allP, "all")
+	submit(ys, []int64{}, []int{}, "none")
+	rounds := e.N
+	for q := 0; q < rounds; q++ {
+		i, j := r.N(n), r.N(n)
+		submit(ys, []int64{int64(j)}, []int{i}, "single") // ok iff i == j
+		// a permutation with one wrong position
+		k := 1 + r.N(n)
+		idx, pf := []int64{}, []int{}
+		for t := 0; t < k; t++ {
+			x := r.N(n)
+			idx, pf = append(idx, int64(x)), append(pf, x)
+		}
+		submit(ys, idx, pf, "multi_ok")
+		w := r.N(k)
+		pf2 := append([]int{}, pf...)
+		pf2[w] = (pf[w] + 1 + r.N(n-1)) % n
+		submit(ys, idx, pf2, "multi_one_wrong")
+		submit(ys, append(append([]int64{}, idx...), int64(n+r.N(3))), append(append([]int{}, pf...), r.N(n)), "index_overflow")
+		submit(ys, idx, pf[:k-1], "len_mismatch")
+	}
+	// stored double hash in a non-canonical encoding of the same field element (known finding)
+	ys2 := append([][]byte{}, ys...)
+	ys2[0] = new(big.Int).Add(new(big.Int).SetBytes(ys[0]), rmod).FillBytes(make([]byte, 32))
+	submit(ys2, []int64{0}, []int{0}, "alias")
+	ys2[1] = append([]byte{0, 0}, ys[1]...)
+	submit(ys2, []int64{1, 2}, []int{1, 2}, "alias")
+	ys2[2] = []byte{}
+	submit(ys2, []int64{2}, []int{2}, "empty_hash")
 }
 
 // decodeInChild runs `Proof.ReadFrom(bz)` (the first thing Msg/SubmitValidityProof does with msg.Proofs[i]) in a child
